@@ -191,3 +191,30 @@ func TestReplayCircuitIDPatternInPayload(t *testing.T) {
 	opts = append(opts[:len(opts)-1], 82, 7, 1, 5, 'p', 'o', 'r', 't', '7', 255)
 	replayCidFinding(t, e, o82Wire{shape: "pseudo", pos: 12, cid: []byte("olt1"), declared: 4, decoy: []byte("port7"), opts: opts}, sig(cidSigBase, "option82-pattern-in-option-payload"))
 }
+
+// TestReplayShortHardwareAddress (KF-C06-35): subscriber 02:11:22:33:44:55 and a client whose header says htype 1, hlen 4,
+// chaddr 02 11 22 33 44 55 ..: the real slow path leases the client its own address and caches it under MACToUint64 = 0; the
+// program looks it up under the six chaddr bytes.  Also silent cases: a VLAN subscriber with its neighbours, hlen 8, htype 6.
+func TestReplayShortHardwareAddress(t *testing.T) {
+	e := newL2Env(t)
+	defer e.close()
+	m := mac6{2, 0x11, 0x22, 0x33, 0x44, 0x55}
+	odd := &oddClient{htype: 1, hlen: 4}
+	copy(odd.chaddr[:], m[:])
+	want := sig(sigMAC, "hlen-under-6")
+	c := l2Case{mode: "mac", macs: []mac6{m, {0x55, 0x44, 0x33, 0x22, 0x11, 2}}, tails: make([][10]byte, 2), odd: odd, absent: mac6{2, 0x11, 0x22, 0x33, 0x44, 0x56}}
+	if got := runL2(t, e, c); vstat.IsListed(want) && got != want {
+		t.Errorf("STALE known finding: the hlen 4 client no longer produces %s (case ended at %q)", want, got)
+	}
+	for _, o := range []oddClient{{htype: 1, hlen: 8}, {htype: 6, hlen: 6}, {htype: 1, hlen: 200}} {
+		o := o
+		copy(o.chaddr[:], []byte{2, 0x11, 0x22, 0x33, 0x44, 0x77, 9, 9})
+		c.odd = &o
+		runL2(t, e, c)
+	}
+	v := l2Case{mode: "vlan", pairs: []vlanPair{{0x123, 0x456}, {0x456, 0x123}, {0x123, 0}, {0x123, 0x457}, {0x122, 0x456}},
+		pcp: [][2]uint16{{0xf000, 0x1000}, {0, 0xe000}, {0x1000, 0}, {0x3000, 0x5000}, {0, 0}}, outerAD: []bool{true, false, true, false, false},
+		ghosts: []l2Ghost{{"priority-tag-vid0", []tagged{{etQ, 0xe000}}}, {"untagged", nil}, {"outer-vid4095", []tagged{{etAD, 0xfff}, {etQ, 0x456}}},
+			{"uninstalled-neighbour", []tagged{{etQ, 0x123}, {etQ, 0x476}}}}}
+	runL2(t, e, v)
+}
